@@ -39,6 +39,8 @@ type Scenario struct {
 	W *WaitSpec `json:"w,omitempty"`
 	// D, when set, makes this a "drain a buffered channel closed with values queued" scenario (drain.go).
 	D *DrainSpec `json:"d,omitempty"`
+	// C, when set, makes this a "close while senders are parked in a send" scenario (closeblock.go).
+	C *CloseSpec `json:"c,omitempty"`
 }
 
 type ChanSpec struct {
@@ -398,6 +400,9 @@ func (s *Scenario) Render() string {
 	}
 	if s.D != nil {
 		return s.renderDrain()
+	}
+	if s.C != nil {
+		return s.renderCloseBlock()
 	}
 	b := &sb{}
 	b.ln("import errors")
